@@ -1,2 +1,140 @@
+"""Self-validation: run a property's rules against in-memory variants of the
+current tree.
+
+* mutants  - seeded changes kept under /verif/seeded/ and the reverse of each
+             repair commit kept under /verif/verif/selftest/regress/: the
+             rules must report at least one violation (and name a construct);
+* twins    - behaviour-preserving transformations of the whole package: the
+             rules must stay silent.
+
+Everything is applied to source text in memory (loader overlay); nothing is
+written to disk.  Results measure the checker, never the repository: an
+undetected mutant or a firing twin is printed as SELFTEST-WEAK and recorded in
+the evidence; it is not a VIOLATION.
+"""
+
+from __future__ import annotations
+
+import glob
+import importlib
+import json
+import os
+from concurrent.futures import ProcessPoolExecutor
+
+from ..engine import report, srcmodel
+from . import patch, twins
+
+HERE = os.path.dirname(os.path.abspath(__file__))
+ROOT = report.VERIF_ROOT
+
+
+def _read_repo(repo_root):
+    def rd(path):
+        with open(os.path.join(repo_root, path), encoding="utf-8") as f:
+            return f.read()
+    return rd
+
+
+def _eval_variant(args):
+    prop, kind, name, overlay, repo_root = args
+    try:
+        mod = importlib.import_module(f"verif.rules.{prop.lower()}")
+        P = srcmodel.Program(repo_root=repo_root, overlay=overlay)
+        run = report.Run(prop, tier="selftest", program=P)
+        mod.check(run, P)
+        run.check_minimums()
+        known = report.load_known()
+        vio = [o for o in run.violations() if report.known_match(prop, o, known) is None]
+        return (kind, name, "violation" if vio else "silent",
+                [f"{o.rule} {o.file}:{o.line} {o.function}: {o.construct[:100]}" for o in vio[:3]])
+    except srcmodel.AnalysisError as e:
+        return (kind, name, "analysis-error", [str(e)[:200]])
+    except Exception as e:          # checker bug on this variant
+        return (kind, name, "analysis-error", [f"{type(e).__name__}: {e}"[:200]])
+
+
+def corpus(prop):
+    """[(name, diff text, reverse?)] for the property."""
+    out = []
+    for d in sorted(glob.glob(os.path.join(ROOT, "seeded", f"{prop}_*"))
+                    + glob.glob(os.path.join(ROOT, "seeded", f"{prop}r*_*"))):
+        p = os.path.join(d, "patch.diff")
+        if os.path.exists(p):
+            with open(p) as f:
+                out.append(("seed:" + os.path.basename(d), f.read(), False))
+    idx = os.path.join(HERE, "regress", "INDEX.json")
+    if os.path.exists(idx):
+        with open(idx) as f:
+            index = json.load(f)
+        for ent in index:
+            if prop in ent["properties"]:
+                with open(os.path.join(HERE, "regress", ent["file"])) as f:
+                    out.append(("revert:" + ent["file"][:-5], f.read(), True))
+    return out
+
+
 def run_for(run, mod, P, jobs=16, seed=0):
-    run.extra.setdefault("selftest", {"mutants": 0, "fired": 0, "twins": 0, "silent": 0})
+    prop = run.prop
+    repo_root = P.repo_root
+    rd = _read_repo(repo_root)
+    tasks = []
+    stale = []
+    for name, diff, rev in corpus(prop):
+        ov = patch.overlay_for(diff, rd, reverse=rev)
+        if ov is None:
+            stale.append(name)
+            continue
+        # a reverse patch that changes nothing (already reverted) is stale too
+        if all(rd(p) == t for p, t in ov.items()):
+            stale.append(name)
+            continue
+        tasks.append((prop, "mutant", name, ov, repo_root))
+    sources = {m.relpath: m.source for m in P.repo_modules() if m.relpath not in P.overlay
+               or True}
+    for tname, fn in twins.TWINS.items():
+        ov = {}
+        for rel, src in sources.items():
+            try:
+                ov[rel] = fn(src, seed)
+            except Exception:
+                ov[rel] = src
+        tasks.append((prop, "twin", tname, ov, repo_root))
+
+    results = []
+    if tasks:
+        with ProcessPoolExecutor(max_workers=max(1, min(jobs, len(tasks)))) as ex:
+            results = list(ex.map(_eval_variant, tasks))
+
+    mut = [r for r in results if r[0] == "mutant"]
+    tw = [r for r in results if r[0] == "twin"]
+    fired = [r for r in mut if r[2] == "violation"]
+    missed = [r for r in mut if r[2] == "silent"]
+    mut_err = [r for r in mut if r[2] == "analysis-error"]
+    silent = [r for r in tw if r[2] == "silent"]
+    tw_fired = [r for r in tw if r[2] == "violation"]
+    tw_err = [r for r in tw if r[2] == "analysis-error"]
+    for r in missed:
+        print(f"SELFTEST-WEAK property={prop} mutant {r[1]} was not detected")
+    for r in mut_err:
+        print(f"SELFTEST-WEAK property={prop} mutant {r[1]} gives ANALYSIS-ERROR "
+              f"instead of a finding: {r[3][0] if r[3] else ''}")
+    for r in tw_fired:
+        print(f"SELFTEST-WEAK property={prop} twin '{r[1]}' (behaviour preserving) "
+              f"raises a false alarm: {r[3][0] if r[3] else ''}")
+    for r in tw_err:
+        print(f"SELFTEST-WEAK property={prop} twin '{r[1]}' is not understood "
+              f"(ANALYSIS-ERROR): {r[3][0] if r[3] else ''}")
+    print(f"[{prop}] selftest: mutants fired {len(fired)}/{len(mut)} "
+          f"(analysis-error {len(mut_err)}, stale {len(stale)}); twins silent "
+          f"{len(silent)}/{len(tw)} (false alarm {len(tw_fired)}, not understood {len(tw_err)})")
+    run.extra["selftest"] = {
+        "mutants": len(mut), "mutants_fired": len(fired),
+        "mutants_missed": [r[1] for r in missed],
+        "mutants_analysis_error": [r[1] for r in mut_err],
+        "mutants_stale": stale,
+        "twins": len(tw), "twins_silent": len(silent),
+        "twins_false_alarm": [r[1] for r in tw_fired],
+        "twins_not_understood": [r[1] for r in tw_err],
+        "details": [{"kind": r[0], "name": r[1], "outcome": r[2], "first": r[3][:1]}
+                    for r in results],
+    }
